@@ -85,6 +85,9 @@ static void derive_cfg(uint64_t seed, RunCfg &c)
   s.nprocs = (int) r.range(1, 16);
   s.stall_seconds = 120;
   s.use_replay = false;
+  // drawn last, so that the configurations of earlier versions of this file are unchanged
+  static const int fud[] = { 10, 30, 90 };
+  s.first_use_delay = r.chance(1, 4) ? fud[r.below(3)] : 0;
 }
 
 // ---------------------------------------------------------------------------
